@@ -689,6 +689,7 @@ func ruleGL4(c *Ctx) *rule {
 			for _, g := range fi.necessaryGuards(site.Block()) {
 				switch {
 				case isLoopCond(fi, g):
+				case isRangeFuncProtocol(g.cond):
 				case isErrCond(g.cond):
 				case c.isGlobHitTest(g.cond) != nil:
 					if g.pol {
@@ -788,6 +789,36 @@ func isLoopCond(fi *fnInfo, g guard) bool {
 	case *ssa.Extract:
 		_, ok := x.Tuple.(*ssa.Next)
 		return ok
+	}
+	return false
+}
+
+// isRangeFuncProtocol: cond compares the hidden state variable of a range-over-func loop (go/ssa calls it jump$N; the synthetic
+// body function and its caller test it around every call of the body) with a constant. It belongs to the iteration
+// protocol - "the body runs while the loop is live" - exactly like the test of an ordinary loop header.
+func isRangeFuncProtocol(cond ssa.Value) bool {
+	bo, ok := cond.(*ssa.BinOp)
+	if !ok {
+		return false
+	}
+	for _, pair := range [][2]ssa.Value{{bo.X, bo.Y}, {bo.Y, bo.X}} {
+		if _, isC := constInt(pair[1]); !isC {
+			continue
+		}
+		ld, isLoad := pair[0].(*ssa.UnOp)
+		if !isLoad || ld.Op != token.MUL {
+			continue
+		}
+		switch cell := ld.X.(type) {
+		case *ssa.FreeVar:
+			if strings.HasPrefix(cell.Name(), "jump$") {
+				return true
+			}
+		case *ssa.Alloc:
+			if strings.HasPrefix(cell.Comment, "jump$") {
+				return true
+			}
+		}
 	}
 	return false
 }
@@ -899,6 +930,68 @@ type findWalk struct {
 	stop  *ssa.Parameter
 	start *ssa.Parameter
 	rd    *ssa.Call // os.ReadDir
+	// the two parameters and every canonical respelling of them (filepath.Abs / filepath.Clean of a member)
+	stopSet, startSet map[ssa.Value]bool
+}
+
+// spellings: p and every value that is filepath.Abs / filepath.Clean of a member of the set (the same directory, spelled canonically).
+func spellings(p *ssa.Parameter) map[ssa.Value]bool {
+	set := map[ssa.Value]bool{p: true}
+	for changed := true; changed; {
+		changed = false
+		for v := range set {
+			for _, ref := range valueReferrers(v) {
+				call, ok := ref.(*ssa.Call)
+				if !ok || len(call.Call.Args) != 1 || call.Call.Args[0] != v {
+					continue
+				}
+				switch calleeName(call.Common()) {
+				case "path/filepath.Clean":
+					if !set[call] {
+						set[call], changed = true, true
+					}
+				case "path/filepath.Abs":
+					for _, r2 := range valueReferrers(call) {
+						if ex, ok := r2.(*ssa.Extract); ok && ex.Index == 0 && !set[ex] {
+							set[ex], changed = true, true
+						}
+					}
+				}
+			}
+		}
+	}
+	return set
+}
+
+// canonicalSpelling: v is the result of a function of path/filepath that returns a Clean path (Abs, Clean, Dir, Join, EvalSymlinks),
+// on every way it can be produced.
+func canonicalSpelling(v ssa.Value, seen map[ssa.Value]bool) bool {
+	if seen[v] {
+		return true
+	}
+	seen[v] = true
+	switch x := v.(type) {
+	case *ssa.Phi:
+		for _, e := range x.Edges {
+			if !canonicalSpelling(e, seen) {
+				return false
+			}
+		}
+		return len(x.Edges) > 0
+	case *ssa.Extract:
+		if call, ok := x.Tuple.(*ssa.Call); ok && x.Index == 0 {
+			switch calleeName(call.Common()) {
+			case "path/filepath.Abs", "path/filepath.EvalSymlinks":
+				return true
+			}
+		}
+	case *ssa.Call:
+		switch calleeName(x.Common()) {
+		case "path/filepath.Clean", "path/filepath.Dir", "path/filepath.Join":
+			return true
+		}
+	}
+	return false
 }
 
 func (c *Ctx) findWalk() *findWalk {
@@ -914,6 +1007,7 @@ func (c *Ctx) findWalk() *findWalk {
 		lost("file.Find no longer has two string parameters (start, stop)")
 	}
 	fw.start, fw.stop = strs[0], strs[1]
+	fw.startSet, fw.stopSet = spellings(fw.start), spellings(fw.stop)
 	for _, site := range callsTo(fn, "os.ReadDir") {
 		if call, ok := site.(*ssa.Call); ok {
 			fw.rd = call
@@ -1019,7 +1113,7 @@ func ruleFD1(c *Ctx) *rule {
 		}
 		if bo, ok := cond.(*ssa.BinOp); ok && (bo.Op == token.EQL || bo.Op == token.NEQ) {
 			isW := func(v ssa.Value) bool { return v == ssa.Value(fw.w) }
-			isStop := func(v ssa.Value) bool { return v == ssa.Value(fw.stop) }
+			isStop := func(v ssa.Value) bool { return fw.stopSet[v] }
 			if (isW(bo.X) && isStop(bo.Y)) || (isW(bo.Y) && isStop(bo.X)) {
 				et.bareStop = true
 			}
@@ -1393,9 +1487,9 @@ func ruleFD5(c *Ctx) *rule {
 			continue
 		}
 		var other ssa.Value
-		if bo.X == ssa.Value(fw.stop) {
+		if fw.stopSet[bo.X] {
 			other = bo.Y
-		} else if bo.Y == ssa.Value(fw.stop) {
+		} else if fw.stopSet[bo.Y] {
 			other = bo.X
 		} else {
 			continue
@@ -1436,7 +1530,7 @@ func ruleFD5(c *Ctx) *rule {
 		if !ok {
 			continue
 		}
-		if bo, isBin := iff.Cond.(*ssa.BinOp); isBin && (bo.Op == token.EQL || bo.Op == token.NEQ) && (bo.X == ssa.Value(fw.stop) || bo.Y == ssa.Value(fw.stop)) {
+		if bo, isBin := iff.Cond.(*ssa.BinOp); isBin && (bo.Op == token.EQL || bo.Op == token.NEQ) && (fw.stopSet[bo.X] || fw.stopSet[bo.Y]) {
 			continue
 		}
 		call, isCall := iff.Cond.(*ssa.Call)
@@ -1451,7 +1545,7 @@ func ruleFD5(c *Ctx) *rule {
 		onStop := false
 		for _, a := range call.Common().Args {
 			for _, o := range append([]ssa.Value{a}, origins(a)...) {
-				if o == ssa.Value(fw.stop) {
+				if fw.stopSet[o] {
 					onStop = true
 				}
 			}
@@ -1476,6 +1570,60 @@ func ruleFD5(c *Ctx) *rule {
 	return r
 }
 
+// ---- FD7: directories are compared in one spelling ------------------------------------------------------------------------------
+
+func ruleFD7(c *Ctx) *rule {
+	r := &rule{ID: "FD7", Engine: "E3", Floor: 2,
+		Statement: "file.Find compares directories by their spelling, so both sides are spelled canonically: the directory the walk starts in and the stop directory it is compared with are results of filepath.Abs / Clean (or of Dir / Join / EvalSymlinks, which clean their result), never the caller's string as given",
+		Necessity: "every later directory is filepath.Dir of the previous one and therefore clean; a stop directory given as \"$HOME/\" (os.UserHomeDir returns $HOME verbatim) never compares equal and the walk climbs above it, a relative start has no parent to climb to"}
+	fw := c.findWalk()
+	// the directory the walk starts in
+	key := fname(fw.fn) + " walk starts in a canonical spelling"
+	okStart := true
+	for i, pred := range fw.loop.header.Preds {
+		if fw.loop.body[pred] {
+			continue
+		}
+		if !canonicalSpelling(fw.w.Edges[i], map[ssa.Value]bool{}) {
+			okStart = false
+		}
+	}
+	if okStart {
+		r.ok(key, c.bpos(fw.loop.header), "the first directory searched is a cleaned path")
+	} else {
+		r.bad(key, c.bpos(fw.loop.header), "the walk starts in the directory as the caller spelled it: a relative start such as \".\" is its own filepath.Dir and the enclosing directories are never searched")
+	}
+	// the stop directory in every comparison inside the walk
+	n := 0
+	for _, b := range fw.fn.Blocks {
+		if !fw.loop.body[b] {
+			continue
+		}
+		for _, in := range b.Instrs {
+			bo, ok := in.(*ssa.BinOp)
+			if !ok || (bo.Op != token.EQL && bo.Op != token.NEQ) {
+				continue
+			}
+			for _, v := range []ssa.Value{bo.X, bo.Y} {
+				if !fw.stopSet[v] {
+					continue
+				}
+				n++
+				k := fmt.Sprintf("%s stop-compare#%d canonical spelling", fname(fw.fn), n)
+				if canonicalSpelling(v, map[ssa.Value]bool{}) {
+					r.ok(k, c.ipos(bo), "the stop directory is compared in its cleaned spelling")
+				} else {
+					r.bad(k, c.ipos(bo), "the stop directory is compared as the caller spelled it: \"/home/me/\" (what os.UserHomeDir returns for HOME=/home/me/) never equals the cleaned directory being searched and the walk climbs above the stop directory")
+				}
+			}
+		}
+	}
+	if n == 0 {
+		r.undecided(fname(fw.fn)+" stop-compare canonical spelling", c.bpos(fw.loop.header), "no equality test on the stop directory inside the walk (FD5 judges that)")
+	}
+	return r
+}
+
 func fsProperties() []*propertySpec {
 	return []*propertySpec{
 		{ID: "C05", Title: "A glob denotes exactly the matching non-hidden files under the spokfile dir",
@@ -1487,7 +1635,7 @@ func fsProperties() []*propertySpec {
 			Explanation: "Static analysis of file.Find: the walk loop is identified by its header phi fed by filepath.Dir of itself; FD1/FD2 classify every exit test of the loop by backward slicing (depends on the searched directory, independent of os.ReadDir results, dominates the back edge, can fire at the root); FD3 proves no negative answer is returned from inside the loop over the entries; FD4 proves the found-return is guarded by Name()==NAME and !IsDir() of the same entry and that the CLI passes cwd/home; FD5 proves the stop comparison is made on the listed directory after its entries were read.",
 			NotCovered:  []string{"symlinked directories, permission errors other than being reported", "that filepath.Dir reaches a fixed point at the root (library fact)"},
 			Assumptions: []string{"filepath.Dir(d) == d exactly at a file-system root; os.ReadDir returns all entries of a directory"},
-			Rules:       []func(*Ctx) *rule{ruleFD1, ruleFD3, ruleFD4, ruleFD5, ruleFD6, ruleAB2}},
+			Rules:       []func(*Ctx) *rule{ruleFD1, ruleFD3, ruleFD4, ruleFD5, ruleFD6, ruleFD7, ruleAB2}},
 	}
 }
 
